@@ -2,6 +2,7 @@
 from __future__ import annotations
 
 import ast
+import re
 
 from sa.cfg import CFG
 from sa.core import AnalysisError, loc, short, unparse, walk_no_nested
@@ -33,6 +34,13 @@ def _is_tag_lookup(e):
     if isinstance(e, ast.Subscript) and unparse(e.value).endswith(".tags") and isinstance(e.ctx, ast.Load):
         return True
     return False
+
+
+def _local_assigned(fn, pred):
+    for n in walk_no_nested(fn):
+        if isinstance(n, ast.Assign) and len(n.targets) == 1 and isinstance(n.targets[0], ast.Name) and pred(n.value):
+            return n.targets[0].id
+    return None
 
 
 def _is_str_call(e):
@@ -164,8 +172,9 @@ def run(ctx):
         t = dup_tests[0]
         true_succ = [d for d, lab in g.succs(t, exc=False) if lab == "true"]
         raises_dup = bool(true_succ) and isinstance(g.nodes[true_succ[0]].ast, ast.Raise) and "DuplicatedTagError" in unparse(g.nodes[true_succ[0]].ast)
-        canon = unparse(g.nodes[t].ast).replace(" ", "")
-        shape = canon in ("notreplaceandtinself.tags", "tinself.tagsandnotreplace", "notreplaceandtinself.tags.keys()")
+        key_local = _local_assigned(setf, lambda v: isinstance(v, ast.Call) and unparse(v.func) == "str" and len(v.args) == 1) or "t"
+        canon = re.sub(rf"\b{re.escape(key_local)}\b", "K", unparse(g.nodes[t].ast)).replace(" ", "")
+        shape = canon in ("notreplaceandKinself.tags", "Kinself.tagsandnotreplace", "notreplaceandKinself.tags.keys()")
         # every path to the store passes the duplicate test (false edge) or the class test (true edge)
         seen = {g.entry}
         todo = [g.entry]
@@ -213,8 +222,9 @@ def run(ctx):
     # ---- rule 4 typed lookups
     getf = methods["get"]
     src = unparse(getf)
-    pairs = [("result is TagNotFoundError", "TagNotFoundError"), ("result is RepeatingTagError", "RepeatingTagError"),
-             ("isinstance(result, _FIXRepeatingGroupContainer)", "FIXMessageError")]
+    R = _local_assigned(getf, lambda v: isinstance(v, ast.Call) and unparse(v.func) == "self.tags.get") or "result"
+    pairs = [(f"{R} is TagNotFoundError", "TagNotFoundError"), (f"{R} is RepeatingTagError", "RepeatingTagError"),
+             (f"isinstance({R}, _FIXRepeatingGroupContainer)", "FIXMessageError")]
     for test, err in pairs:
         ok = False
         for n in walk_no_nested(getf):
@@ -223,17 +233,19 @@ def run(ctx):
         ctx.instance("C18.typed-lookups", f"get[{err}]", ok, f"get() no longer maps `{test}` to {err}", loc(getf))
     ggl = methods["get_group_list"]
     ok1 = ok2 = False
+    IG = _local_assigned(ggl, lambda v: isinstance(v, ast.Call) and unparse(v.func) == "self.is_group") or "is_group"
     for n in walk_no_nested(ggl):
-        if isinstance(n, ast.If) and unparse(n.test) == "is_group is None":
+        if isinstance(n, ast.If) and unparse(n.test) == f"{IG} is None":
             ok1 = any(isinstance(x, ast.Raise) and unparse(x.exc).startswith("TagNotFoundError(") for x in n.body)
-        if isinstance(n, ast.If) and unparse(n.test) == "not is_group":
+        if isinstance(n, ast.If) and unparse(n.test) == f"not {IG}":
             ok2 = any(isinstance(x, ast.Raise) and unparse(x.exc).startswith("UnmappedRepeatedGrpError(") for x in n.body)
     ctx.instance("C18.typed-lookups", "get_group_list[missing/plain]", ok1 and ok2,
                  "get_group_list() no longer distinguishes a missing tag (TagNotFoundError) from a plain tag (UnmappedRepeatedGrpError)", loc(ggl))
     gi = methods["get_group_by_index"]
     tests = [unparse(n.test) for n in walk_no_nested(gi) if isinstance(n, ast.If)]
-    upper = any("index >= len(g)" in t or "len(g) <= index" in t for t in tests)
-    lower = any("index < -len(g)" in t or "index < 0" in t or "-len(g) > index" in t or "0 > index" in t for t in tests)
+    G = _local_assigned(gi, lambda v: isinstance(v, ast.Call) and unparse(v.func) == "self.get_group_list") or "g"
+    upper = any(f"index >= len({G})" in t or f"len({G}) <= index" in t for t in tests)
+    lower = any(f"index < -len({G})" in t or "index < 0" in t or f"-len({G}) > index" in t or "0 > index" in t for t in tests)
     ctx.instance("C18.typed-lookups", "get_group_by_index[two-sided bound]", upper and lower,
                  f"get_group_by_index() checks {tests}: an out-of-range {'negative ' if upper else ''}index escapes as IndexError instead of TagNotFoundError", loc(gi))
     gt = methods["get_group_by_tag"]
@@ -280,7 +292,8 @@ def run(ctx):
     # a group item is stored as the container that was given (a copy through the tag-map constructor would stringify nested groups)
     from sa.cfg import CFG as _CFG
     from sa.guards import reaching_defs as _rd, facts as _facts
-    for mname, var in (("add_group", "group"), ("set_group", "m")):
+    sg_loop = next((unparse(n.target) for n in walk_no_nested(methods["set_group"]) if isinstance(n, ast.For)), "m")
+    for mname, var in (("add_group", methods["add_group"].args.args[2].arg), ("set_group", sg_loop)):
         f = methods[mname]
         g = _CFG(f)
         rd = _rd(g, exc=False)
@@ -316,15 +329,21 @@ def run(ctx):
                  "equality can hold although the tag/value content differs", loc(eq))
     ign = None
     for n in walk_no_nested(eq):
-        if isinstance(n, ast.Assign) and isinstance(n.targets[0], ast.Name) and n.targets[0].id == "ignore_tags":
+        if isinstance(n, ast.Assign) and isinstance(n.targets[0], ast.Name) and isinstance(n.value, (ast.Set, ast.List, ast.Tuple)):
             v = fold.fold(n.value)
-            if isinstance(v, (frozenset, list, tuple)):
+            if isinstance(v, (frozenset, list, tuple)) and v and all(getattr(x, "cls", None) == "FTag" for x in v):
                 ign = {str(Folder.val(x)) for x in v}
     ctx.instance("C18.equality", f"{CLS}.__eq__[dict branch ignore set]", ign == {"8", "9", "10", "35"},
                  f"dict equality ignores tags {sorted(ign) if ign else ign}, expected exactly the four framing tags 8, 9, 10, 35", loc(eq))
     # the dict branch compares tag sets and every value
     s = unparse(eq)
-    ok = "other_tags != self_tags" in s.replace("self_tags != other_tags", "other_tags != self_tags") and "self.get(t)" in s and "str(other[t])" in s
+    set_locals = [n.targets[0].id for n in walk_no_nested(eq) if isinstance(n, ast.Assign) and isinstance(n.targets[0], ast.Name)
+                  and isinstance(n.value, ast.Call) and unparse(n.value.func) == "set"]
+    cmp_sets = any(isinstance(n, ast.Compare) and isinstance(n.ops[0], ast.NotEq) and {unparse(n.left), unparse(n.comparators[0])} == set(set_locals) and len(set_locals) == 2
+                   for n in walk_no_nested(eq))
+    getk = set(re.findall(r"self\.get\((\w+)\)", s))
+    othk = set(re.findall(r"str\(other\[(\w+)\]\)", s))
+    ok = cmp_sets and bool(getk & othk)
     ctx.instance("C18.equality", f"{CLS}.__eq__[dict branch compares sets and values]", ok,
                  "dict equality no longer compares the tag sets and each value's string form", loc(eq))
 
